@@ -116,6 +116,9 @@ pub struct CtlObserver {
     ready_seen: bool,
     wait_start: bool,
     paused_at_delivery: bool,
+    /// the guest's own store to the contested cell that the instruction at this boundary is about to perform
+    pending_store: Vec<(u32, crate::harness::decode::ByteStore)>,
+    pub guest_stores_to_contested_cell: u64,
 }
 
 impl CtlObserver {
@@ -138,6 +141,8 @@ impl CtlObserver {
             ready_seen: false,
             wait_start,
             paused_at_delivery: false,
+            pending_store: vec![],
+            guest_stores_to_contested_cell: 0,
         }
     }
 
@@ -159,8 +164,23 @@ impl CtlObserver {
     }
 }
 
+/// a scratch cell that both the script and the guest write
+pub const CONTESTED_CELL: u32 = SCRATCH_LO + 0x23;
+
 impl Observer for CtlObserver {
     fn boundary(&mut self, cpu: &mut Cpu, _g: &Guest, row: &Row, prev: Option<&Row>, new: &[String]) -> Result<(), Failure> {
+        // the instruction of the previous iteration ran AFTER that iteration's lines were applied: its store comes last
+        if let Some(p) = prev {
+            let stores = std::mem::take(&mut self.pending_store);
+            if row.state != p.state {
+                for (a, st) in stores {
+                    let cur = self.model.pokes.get(&a).copied().unwrap_or(0);
+                    self.model.pokes.insert(a, st.resolve(cur, p.ccr));
+                    self.guest_stores_to_contested_cell += 1;
+                }
+            }
+        }
+        self.pending_store = crate::harness::decode::decode_stores(cpu, row.pc, &cpu.er).into_iter().filter(|(a, _)| *a == CONTESTED_CELL).collect();
         for m in new {
             if m == "ready" {
                 if self.ready_seen || !self.wait_start || row.iter > 0 {
@@ -344,6 +364,8 @@ fn gen_malformed(rng: &mut Rng) -> String {
         "cmd", "cmd:", "cmd:pause:x", "cmd:start:", "cmd:stop:1", "cmd:stop:", ":cmd:stop", "cmd::stop", "cmd:halt", "cmd:STOP", "CMD:stop", " cmd:stop", "cmd:stop ", "cmd :stop",
         "u8", "u8:", "u8:fffe40", "u8:fffe40:", "u8:fffe40:1:2", "u8::1", "u8:zz:01", "u8:fffe40:xyz", "u8:fffe40:100", "u8:1ffffffff:01", "u8:fffe40:-1", "u8:0xfffe40:1", "u8:fffe40 :1",
         "u8:100:1", "u8:600000:1", "u8:ffffea:1", "u8:ffbf1f:1", "u8:ffffffff:ff", "U8:fffe40:1",
+        // four-digit addresses that would land on used cells if they were sign-extended like @aa:16
+        "u8:fe40:1", "u8:fe20:7f", "u8:ffd0:5a", "u8:ff88:1", "u8:e000:1",
         // addresses that would land on used cells if the upper bits were dropped
         "u8:01fffe40:1", "u8:1fffe40:1", "u8:ff00fffe40:1", "u8:80fffe41:1", "u8:01fffe20:7f", "u8:10000c0:1", "u8:fffe40:1ff", "u8:fffe40:101",
         "ioport", "ioport:1", "ioport:1:2:3", "ioport:g:1", "ioport:1:g", "ioport:100:1", "ioport:1:100", "ioport:0:ff", "ioport:c:ff", "ioport:ff:ff", "ioport::", "IOPORT:1:ff",
@@ -373,6 +395,19 @@ impl Property for C18 {
                 script.push(gen_malformed(rng));
             } else {
                 script.push(gen_wellformed(rng, &mut seq));
+            }
+        }
+        // a third of the runs have a contested cell: the guest stores to it between its delays, and the script names it in
+        // pairs of identical consecutive lines (the second of a pair is a line like any other: whatever the guest did to
+        // the cell after the first, it holds the line's value again)
+        let contested = rng.chance(1, 3);
+        if contested {
+            let pairs = rng.range(1, 4);
+            for _ in 0..pairs {
+                let at = rng.below(script.len() as u64 + 1) as usize;
+                let l = format!("u8:{:x}:{:x}", CONTESTED_CELL, rng.range(1, 255));
+                script.insert(at, l.clone());
+                script.insert(at, l);
             }
         }
         let wait_start = rng.chance(1, 3);
@@ -410,12 +445,16 @@ impl Property for C18 {
         let mut blocks = vec![];
         let mut iters = 0u64;
         while iters < span {
-            let d = if span - iters > 5000 { rng.range(1000, 60_000) } else { rng.range(1, 60) } as u16;
+            let d = if contested { rng.range(1, 40) } else if span - iters > 5000 { rng.range(1000, 60_000) } else { rng.range(1, 60) } as u16;
             blocks.push(Block::Delay(d));
             iters += 1 + 2 * d as u64;
             if rng.chance(1, 3) {
                 blocks.push(Block::Arith(rng.u8()));
                 iters += 5;
+            }
+            if contested {
+                blocks.push(Block::Store { addr: CONTESTED_CELL, val: 0, short: false });
+                iters += 2;
             }
         }
         let guest = GuestSpec { blocks, handlers: vec![], code_dram: rng.chance(1, 4), stack_dram: false, data_dram: false, vec_top: 0, sub_delay: 1, init_ccr: None, stack_off: 0, exit_style: 0 };
@@ -511,6 +550,7 @@ impl Property for C18 {
         add(stats, "event.batches_delivered_while_paused", obs.delivered_while_paused as u64);
         add(stats, "probe.malformed_line_followed_by_lines_in_same_batch", obs.malformed_in_batch_with_later_lines as u64);
         add(stats, "probe.quiet_point_checks", obs.quiet_checks);
+        add(stats, "event.guest_stores_to_the_contested_cell", obs.guest_stores_to_contested_cell);
         add(stats, "lines_wellformed_applied", obs.model.applied_wellformed as u64);
         add(stats, "lines_ignored_by_model", obs.model.ignored as u64);
         if obs.model.stopped {
